@@ -99,8 +99,8 @@ let run_hist (noop : bool) (step : world -> wop -> (world * out) res) (nslots : 
 
 let handle (toks : string list) : (string * string * string) option =
   match toks with
-  | ("life32" | "lifen") as op :: ops ->
-    let noop = (op = "lifen") in
+  | ("life32" | "lifen" | "lifed") as op :: ops ->
+    let noop = (op = "lifen" || op = "lifed") in      (* the two shipped back ends: 64 slots, no failure injection *)
     let nslots = if noop then 64 else 4 in
     let (m, recr) = run_hist noop (wstep code_move_assign_releases) nslots ops in
     let (s, _) = run_hist noop wstep_spec nslots ops in
@@ -112,13 +112,13 @@ let handle (toks : string list) : (string * string * string) option =
    that of its solo run (the sequential model of that thread's history alone) *)
 let handle_mt (toks : string list) : (string * string * string) option =
   match toks with
-  | (("mt32" | "mtn") as op) :: _reps :: "|" :: rest ->
+  | (("mt32" | "mtn" | "mtne" | "mtd") as op) :: _reps :: "|" :: rest ->
     let rec split acc cur = function
       | [] -> List.rev (List.rev cur :: acc)
       | "|" :: tl -> split (List.rev cur :: acc) [] tl
       | x :: tl -> split acc (x :: cur) tl in
     let threads = split [] [] rest in
-    let lop = if op = "mt32" then "life32" else "lifen" in
+    let lop = if op = "mt32" then "life32" else if op = "mtd" then "lifed" else "lifen" in
     let rs = List.map (fun ops -> match handle (lop :: ops) with Some (m, s, _) -> (m, s) | None -> ("?", "?")) threads in
     Some (String.concat " | " (List.map fst rs), String.concat " | " (List.map snd rs),
           op ^ ":threads" ^ string_of_int (List.length threads))
